@@ -142,7 +142,7 @@ class Sweep:
         q = tier == "quick"
         base = sweep.repo_cases() + sweep.generated_cases(rng, gen_n or (3 if q else 25))
         # regression corpus first
-        self.cases = corpus_cases() + base + sweep.hostile_cases(rng, 6 if q else 60) + sweep.targeted_cases(rng, 6 if q else 40) + sweep.damaged_cases(rng, base, dmg if dmg is not None else (1 if q else 8))
+        self.cases = corpus_cases() + base + sweep.hostile_cases(rng, 6 if q else 60) + sweep.targeted_cases(rng, 6 if q else 40) + sweep.refusal_cases(rng, 4 if q else 24) + sweep.damaged_cases(rng, base, dmg if dmg is not None else (1 if q else 8))
         self.clean = scenario.run_scenarios(self.exe, [c.scn for c in self.cases], timeout_each=20)
         for c in self.cases: res.count("case-" + c.label.split(":")[0] + "-" + c.fmt)
         res.evaluations += len(self.cases)
@@ -208,7 +208,12 @@ def ledger_oracle(res, sw, which):
     n = 0
     def one(label, sc, t):
         nonlocal n
-        if t.hang or (t.crash and not (which == "contract" and t.viol)): return      # a crash is C02's business, unless a recorded contract violation preceded it
+        # a crash is C02's business, unless a recorded contract violation preceded it, or (ledger) the sanitizer says that
+        # released memory was used or released again - which is this property's subject seen from the allocator's side
+        if t.crash and which == "ledger" and any(k in t.crash for k in ("heap-use-after-free", "double-free", "attempting free on address")):
+            if res.violation("%s: released memory used or released again (%s)" % (label, summarize(t.crash)), sc.text() + "\n# " + t.crash[-2000:], key="ledger:use-after-release"): n += 1
+            return
+        if t.hang or (t.crash and not (which == "contract" and t.viol)): return
         probs = []
         if which == "ledger":
             if t.ledger.get("live_allocs", 0): probs.append("%d allocation(s) never freed" % t.ledger["live_allocs"])
